@@ -440,6 +440,10 @@ class SymReal:
         return self
 
     @property
+    def size(self):
+        return 1  # numpy scalars have size 1 (rpylib reads jp.size on array elements)
+
+    @property
     def real(self):
         return self
 
